@@ -471,138 +471,84 @@ Qed.
 
 (* ------------------------------------------------------------------ *)
 (* the writer against net/http's response writer *)
-Definition is_hdr_op (o : op) : bool := match o with HAdd _ _ | HSet _ _ | HDel _ => true | _ => false end.
-
-(* committed: the header has been committed in net/http's sense; codeset: the adaptor's statusCode is set;
-   flushed: the first Flush happened.  A program is late-free when, between the commit and the first Flush
-   (or the end), it neither mutates Header() nor calls a non-informational WriteHeader that the adaptor would
-   still accept. *)
-Fixpoint late_free_from (committed codeset flushed : bool) (p : prog) : bool :=
-  match p with
-  | [] => true
-  | o :: r =>
-      match o with
-      | WriteHeader c =>
-          if informational c then late_free_from committed codeset flushed r
-          else if committed then (codeset || flushed) && late_free_from true true flushed r
-          else late_free_from true true flushed r
-      | Write _ => late_free_from true codeset flushed r
-      | Flush => late_free_from true codeset true r
-      | _ => (negb committed || flushed) && late_free_from committed codeset flushed r
-      end
-  end.
-Definition late_free (p : prog) : bool := late_free_from false false false p.
-
 Lemma consts : StatusOK = 200%Z /\ StatusSwitchingProtocols = 101%Z /\ StatusNoContent = 204%Z /\ StatusNotModified = 304%Z.
 Proof. now vm_compute. Qed.
 
-(* simulation relation, indexed by the three flags *)
-Definition sim (cm cs fl : bool) (w : wstate) (s : rwstate) : Prop :=
+(* simulation: both commit at the same operation, with the same snapshot; the adaptor records code 0 for the
+   implicit commit, where net/http records 200 *)
+Definition sim (w : wstate) (s : rwstate) : Prop :=
   w_panic w = false /\ r_h s = w_h w /\
-  match cm, fl with
-  | false, _ => r_committed s = None /\ w_code w = 0%Z /\ w_flushed w = None /\ w_buf w = r_body s /\ cs = false /\ fl = false
-  | true, false =>
-      exists c fh, r_committed s = Some (c, fh) /\ w_flushed w = None /\ w_h w = fh /\ w_buf w = r_body s /\
-                   (if cs then w_code w = c /\ c <> 0%Z else w_code w = 0%Z /\ c = 200%Z)
-  | true, true =>
-      exists c fh, r_committed s = Some (c, fh) /\ w_flushed w = Some (c, drop_content_length fh) /\
-                   w_buf w ++ w_pipe w = r_body s
+  w_out_body w = r_body s /\ (w_flushed w = false -> w_pipe w = []) /\
+  match r_committed s, w_committed w with
+  | None, None => w_flushed w = false
+  | Some (c, fh), Some (c', fh') => fh' = fh /\ c <> 0%Z /\ (c' = c \/ (c' = 0%Z /\ c = 200%Z))
+  | _, _ => False
   end.
 
-Lemma sim_run p : forall cm cs fl w s,
-  (forall c, In (WriteHeader c) p -> valid_code c = true) ->
-  late_free_from cm cs fl p = true -> sim cm cs fl w s ->
-  exists cm' cs' fl', sim cm' cs' fl' (fold_left w_step p w) (fold_left rw_step p s).
+Lemma sim_commit w s c c' :
+  sim w s -> c <> 0%Z -> (c' = c \/ (c' = 0%Z /\ c = 200%Z)) -> sim (w_commit w c') (rw_commit s c).
 Proof.
-  induction p as [|o r IH]; intros cm cs fl w s Hv Hl Hs; [exists cm, cs, fl; exact Hs|].
-  cbn [fold_left]. assert (Hv' : forall c, In (WriteHeader c) r -> valid_code c = true) by (intros c Hc; apply Hv; now right).
-  destruct consts as (EOK & ESW & _ & _).
-  destruct Hs as (Hp & Hh & Hs). unfold w_step at 2. rewrite Hp.
-  destruct o as [c|k v|k v|k|b|]; cbn [late_free_from] in Hl.
-  - (* WriteHeader *)
-    assert (Hc : valid_code c = true) by (apply Hv; now left). unfold valid_code in Hc.
-    replace ((c <? 100) || (c >? 999))%Z with false by lia.
-    rewrite ESW. unfold rw_step at 2. fold (informational c). unfold informational in *.
-    destruct ((100 <=? c) && (c <=? 199) && negb (c =? 101))%Z eqn:Ei.
-    + eapply IH; eauto. now repeat split.
-    + destruct cm.
-      * apply andb_true_iff in Hl as [Hl1 Hl2].
-        destruct fl.
-        -- destruct Hs as (c0 & fh & H1 & H2 & H3).
-           eapply (IH true true true); eauto. split; [|split].
-           ++ destruct (w_code w =? 0)%Z; cbn; repeat split; auto.
-           ++ unfold rw_commit. rewrite H1. destruct (w_code w =? 0)%Z; cbn; repeat split; auto.
-           ++ exists c0, fh. unfold rw_commit. rewrite H1. destruct (w_code w =? 0)%Z; cbn; repeat split; auto.
-        -- rewrite orb_false_r in Hl1. subst cs.
-           destruct Hs as (c0 & fh & H1 & H2 & H3 & H4 & H5 & H6).
-           eapply (IH true true false); eauto.
-           replace (w_code w =? 0)%Z with false by lia.
-           split; [assumption|]. unfold rw_commit. rewrite H1. split; [assumption|].
-           exists c0, fh. repeat split; auto.
-      * destruct Hs as (H1 & H2 & H3 & H4 & H5 & H6). subst cs fl.
-        eapply (IH true true false); eauto. rewrite H2. cbn.
-        split; [reflexivity|]. unfold rw_commit. rewrite H1. cbn. split; [assumption|].
-        exists c, (r_h s). repeat split; auto; lia.
-  - (* HAdd *)
-    apply andb_true_iff in Hl as [Hl1 Hl2]. eapply IH; eauto.
-    split; [reflexivity|]. cbn [rw_step r_h w_h hdr_step]. split; [now rewrite Hh|].
-    destruct cm; [destruct fl; [|discriminate]|]; cbn in *; auto.
-  - (* HSet *)
-    apply andb_true_iff in Hl as [Hl1 Hl2]. eapply IH; eauto.
-    split; [reflexivity|]. cbn [rw_step r_h w_h hdr_step]. split; [now rewrite Hh|].
-    destruct cm; [destruct fl; [|discriminate]|]; cbn in *; auto.
-  - (* HDel *)
-    apply andb_true_iff in Hl as [Hl1 Hl2]. eapply IH; eauto.
-    split; [reflexivity|]. cbn [rw_step r_h w_h hdr_step]. split; [now rewrite Hh|].
-    destruct cm; [destruct fl; [|discriminate]|]; cbn in *; auto.
-  - (* Write *)
-    destruct cm.
-    + destruct fl.
-      * destruct Hs as (c0 & fh & H1 & H2 & H3).
-        eapply (IH true cs true); eauto. rewrite H2. split; [reflexivity|]. cbn. unfold rw_commit. rewrite H1. cbn.
-        split; [assumption|]. exists c0, fh. repeat split; auto. now rewrite app_assoc, H3.
-      * destruct Hs as (c0 & fh & H1 & H2 & H3 & H4 & H5).
-        eapply (IH true cs false); eauto. rewrite H2. split; [reflexivity|]. cbn. unfold rw_commit. rewrite H1. cbn.
-        split; [assumption|]. exists c0, fh. repeat split; auto. now rewrite H4.
-    + destruct Hs as (H1 & H2 & H3 & H4 & H5 & H6). subst cs fl.
-      eapply (IH true false false); eauto. rewrite H3. split; [reflexivity|]. cbn. unfold rw_commit. rewrite H1. cbn.
-      split; [assumption|]. exists 200%Z, (r_h s). repeat split; auto. now rewrite H4.
-  - (* Flush *)
-    destruct cm.
-    + destruct fl.
-      * destruct Hs as (c0 & fh & H1 & H2 & H3).
-        eapply (IH true cs true); eauto. rewrite H2. split; [assumption|]. cbn. unfold rw_commit. rewrite H1.
-        split; [assumption|]. exists c0, fh. repeat split; auto.
-      * destruct Hs as (c0 & fh & H1 & H2 & H3 & H4 & H5).
-        eapply (IH true cs true); eauto. rewrite H2. split; [reflexivity|]. cbn. unfold rw_commit. rewrite H1.
-        split; [assumption|]. exists c0, fh. split; [first [reflexivity|assumption]|]. rewrite app_nil_r. split; [|assumption].
-        unfold w_status. rewrite H3. destruct cs.
-        -- destruct H5 as [H5 H6]. replace (w_code w =? 0)%Z with false by lia. now rewrite H5.
-        -- destruct H5 as [H5 H6]. rewrite H5. cbn. now rewrite EOK, H6.
-    + destruct Hs as (H1 & H2 & H3 & H4 & H5 & H6). subst cs fl.
-      eapply (IH true false true); eauto. rewrite H3. split; [reflexivity|]. cbn. unfold rw_commit. rewrite H1. cbn.
-      split; [assumption|]. exists 200%Z, (r_h s). rewrite app_nil_r. repeat split; auto.
-      unfold w_status. rewrite H2. cbn. now rewrite EOK, Hh.
+  intros (Hp & Hh & Hb & Hpipe & Hc) Hc0 Hcc. unfold w_commit, rw_commit, sim.
+  destruct (r_committed s) as [[c0 fh]|] eqn:E1, (w_committed w) as [[c1 fh1]|] eqn:E2; try contradiction.
+  - rewrite E1, E2. auto.
+  - cbn. unfold w_out_body in *. cbn. repeat split; auto.
 Qed.
 
-Lemma sim_init : sim false false false w_init rw_init.
+Lemma sim_step w s o :
+  (forall c, o = WriteHeader c -> valid_code c = true) -> sim w s -> sim (w_step w o) (rw_step s o).
+Proof.
+  intros Hv Hs. destruct consts as (EOK & ESW & _ & _).
+  pose proof Hs as (Hp & Hh & Hb & Hpipe & Hc). unfold w_step. rewrite Hp.
+  destruct o as [c|k v|k v|k|b|]; cbn [rw_step].
+  - assert (Hc' : valid_code c = true) by now apply Hv. unfold valid_code in Hc'.
+    replace ((c <? 100) || (c >? 999))%Z with false by lia. rewrite ESW. fold (informational c).
+    destruct (informational c); [exact Hs|]. apply sim_commit; auto. lia.
+  - unfold sim in *. cbn. rewrite Hh. repeat split; auto.
+  - unfold sim in *. cbn. rewrite Hh. repeat split; auto.
+  - unfold sim in *. cbn. rewrite Hh. repeat split; auto.
+  - pose proof (sim_commit w s 200%Z 0%Z Hs ltac:(lia) ltac:(right; auto)) as (Hp' & Hh' & Hb' & Hpipe' & Hc2).
+    set (w' := w_commit w 0%Z) in *. set (s' := rw_commit s 200%Z) in *.
+    unfold sim. destruct (w_flushed w') eqn:Ef; cbn [w_panic w_h r_h w_committed r_committed w_flushed r_body w_pipe].
+    + unfold w_out_body in *. cbn [w_flushed w_buf w_pipe]. rewrite Ef in Hb'. rewrite app_assoc, Hb'.
+      repeat split; auto. discriminate.
+    + unfold w_out_body in *. cbn [w_flushed w_buf w_pipe]. rewrite Ef in Hb'. rewrite Hb'.
+      repeat split; auto.
+  - pose proof (sim_commit w s 200%Z 0%Z Hs ltac:(lia) ltac:(right; auto)) as (Hp' & Hh' & Hb' & Hpipe' & Hc2).
+    set (w' := w_commit w 0%Z) in *. set (s' := rw_commit s 200%Z) in *.
+    assert (Hcm : exists c0 fh, r_committed s' = Some (c0, fh)).
+    { unfold s', rw_commit. destruct (r_committed s) as [[c0 fh]|] eqn:E; [rewrite E|cbn]; eauto. }
+    destruct Hcm as (c0 & fh & Ecm).
+    unfold sim. cbn [w_panic w_h r_h w_committed r_committed w_flushed r_body w_pipe].
+    unfold w_out_body in *. cbn [w_flushed w_buf w_pipe].
+    split; [reflexivity|]. split; [assumption|]. split.
+    + destruct (w_flushed w') eqn:Ef; [assumption|]. rewrite (Hpipe' eq_refl), app_nil_r. assumption.
+    + split; [discriminate|]. rewrite Ecm in *. destruct (w_committed w') as [[c1 fh1]|]; [assumption|contradiction].
+Qed.
+
+Lemma sim_run p : forall w s,
+  (forall c, In (WriteHeader c) p -> valid_code c = true) -> sim w s -> sim (fold_left w_step p w) (fold_left rw_step p s).
+Proof.
+  induction p as [|o r IH]; intros w s Hv Hs; [exact Hs|]. cbn [fold_left]. apply IH.
+  - intros c Hc. apply Hv. now right.
+  - apply sim_step; [|assumption]. intros c ->. apply Hv. now left.
+Qed.
+
+Lemma sim_init : sim w_init rw_init.
 Proof. repeat split. Qed.
 
 (* what the simulation gives at the end of the handler *)
-Lemma sim_final cm cs fl w s :
-  sim cm cs fl w s ->
+Lemma sim_final w s :
+  sim w s ->
   w_panic w = false /\ w_out_status w = rw_status s /\ w_out_body w = r_body s /\
   (w_out_hdr w = rw_frozen s \/ w_out_hdr w = drop_content_length (rw_frozen s)).
 Proof.
-  destruct consts as (EOK & _). intros (Hp & Hh & Hs). split; [assumption|].
-  unfold w_out_status, w_out_body, w_out_hdr, rw_status, rw_frozen.
-  destruct cm.
-  - destruct fl.
-    + destruct Hs as (c & fh & -> & -> & H3). auto.
-    + destruct Hs as (c & fh & -> & -> & H3 & H4 & H5). unfold w_status. destruct cs.
-      * destruct H5 as [H5 H6]. replace (w_code w =? 0)%Z with false by lia. subst. auto.
-      * destruct H5 as [H5 H6]. rewrite H5. cbn. subst. rewrite EOK. auto.
-  - destruct Hs as (-> & H2 & -> & H4 & _). unfold w_status. rewrite H2. cbn. rewrite EOK, Hh. auto.
+  destruct consts as (EOK & _). intros (Hp & Hh & Hb & _ & Hc). split; [assumption|].
+  unfold w_out_status, w_out_hdr, rw_status, rw_frozen.
+  destruct (r_committed s) as [[c fh]|], (w_committed w) as [[c' fh']|]; try contradiction.
+  - destruct Hc as (-> & Hc0 & [-> | [-> ->]]).
+    + replace (c =? 0)%Z with false by lia. repeat split; auto. destruct (w_flushed w); auto.
+    + cbn. rewrite EOK. repeat split; auto. destruct (w_flushed w); auto.
+  - rewrite EOK, Hh. auto.
 Qed.
 
 Lemma must_skip_body_spec c : valid_code c = true -> must_skip_body c = negb (body_allowed c).
@@ -785,15 +731,15 @@ Definition no_ct_on_304 (p : prog) : Prop :=
   rw_status (rw_run p) = 304%Z -> h_get (rw_frozen (rw_run p)) sContentType = [].
 
 Theorem final_response_equal head p :
-  valid_prog p -> names_ok p -> late_free p = true ->
+  valid_prog p -> names_ok p ->
   singletons_ok (rw_frozen (rw_run p)) -> no_ct_on_304 p ->
   adaptor_panics p = false /\
   m_status (adaptor_resp head p) = m_status (spec_resp head p) /\
   m_body (adaptor_resp head p) = m_body (spec_resp head p) /\
   forall n, excluded_name n = false -> f_get (m_fields (adaptor_resp head p)) n = f_get (m_fields (spec_resp head p)) n.
 Proof.
-  intros Hv Hn Hl Hsg H304.
-  destruct (sim_run p false false false w_init rw_init Hv Hl sim_init) as (cm & cs & fl & Hsim).
+  intros Hv Hn Hsg H304.
+  pose proof (sim_run p w_init rw_init Hv sim_init) as Hsim.
   apply sim_final in Hsim. destruct Hsim as (Hp & Hst & Hbody & Hhdr).
   fold (w_run p) in *. fold (rw_run p) in *.
   assert (Hvalid : valid_code (rw_status (rw_run p)) = true) by (apply rw_status_valid; [exact Hv|reflexivity]).
@@ -824,31 +770,20 @@ Definition resp_agree (head : bool) (p : prog) : Prop :=
   m_body (adaptor_resp head p) = m_body (spec_resp head p) /\
   forall n, excluded_name n = false -> f_get (m_fields (adaptor_resp head p)) n = f_get (m_fields (spec_resp head p)) n.
 
+(* the former late-writeheader / late-header-mutation witnesses (repaired in 8ad8bae): now inside the theorem *)
 Definition late_status_witness : prog := [Write (s2b "x"); WriteHeader 404].
 Definition late_header_witness : prog := [Write (s2b "x"); HSet (s2b "X-A") (s2b "1")].
 Definition singleton_witness : prog := [HAdd (s2b "Content-Encoding") (s2b "gzip"); HAdd (s2b "Content-Encoding") (s2b "br"); Write (s2b "zz")].
 Definition ct304_witness : prog := [HSet (s2b "Content-Type") (s2b "a/b"); WriteHeader 304].
 
-Lemma late_status_refuted : valid_prog late_status_witness /\ names_ok late_status_witness /\ ~ resp_agree false late_status_witness.
-Proof.
-  split; [intros c [H|[H|[]]]; inversion H; reflexivity|]. split; [intros o k [<-|[<-|[]]] H; inversion H|].
-  intros (H & _). vm_compute in H. discriminate.
-Qed.
-Lemma late_header_refuted : valid_prog late_header_witness /\ names_ok late_header_witness /\ ~ resp_agree false late_header_witness.
-Proof.
-  split; [intros c [H|[H|[]]]; inversion H|]. split; [intros o k [<-|[<-|[]]] H; inversion H; reflexivity|].
-  intros (_ & _ & H). specialize (H (s2b "X-A") eq_refl). vm_compute in H. discriminate.
-Qed.
-Lemma singleton_refuted : valid_prog singleton_witness /\ names_ok singleton_witness /\ late_free singleton_witness = true /\ ~ resp_agree false singleton_witness.
+Lemma singleton_refuted : valid_prog singleton_witness /\ names_ok singleton_witness /\ ~ resp_agree false singleton_witness.
 Proof.
   split; [intros c [H|[H|[H|[]]]]; inversion H|]. split; [intros o k [<-|[<-|[<-|[]]]] H; inversion H; reflexivity|].
-  split; [reflexivity|].
   intros (_ & _ & H). specialize (H (s2b "Content-Encoding") eq_refl). vm_compute in H. discriminate.
 Qed.
-Lemma ct304_refuted : valid_prog ct304_witness /\ names_ok ct304_witness /\ late_free ct304_witness = true /\ ~ resp_agree false ct304_witness.
+Lemma ct304_refuted : valid_prog ct304_witness /\ names_ok ct304_witness /\ ~ resp_agree false ct304_witness.
 Proof.
   split; [intros c [H|[H|[]]]; inversion H; reflexivity|]. split; [intros o k [<-|[<-|[]]] H; inversion H; reflexivity|].
-  split; [reflexivity|].
   intros (_ & _ & H). specialize (H (s2b "Content-Type") eq_refl). vm_compute in H. discriminate.
 Qed.
 
